@@ -36,6 +36,32 @@ type Ctx struct {
 	Skip  map[string]bool // cases excluded (culprits of earlier crashes)
 	R     *rig.Result
 	J     *rig.Journal
+	// Finish writes the result as it stands and ends the worker process (for monitors that find the worker's own
+	// goroutine stuck inside the library for good).
+	Finish func()
+}
+
+// WatchTrackerCalls ends the worker with a violation when a tracker call made on the worker's own goroutine never
+// returns (dead-state proof); sigPrefix is the property's signature prefix.
+func (c *Ctx) WatchTrackerCalls(sigPrefix string) {
+	rig.StallWatch(c.R.Evals, func(ds rig.DeadState) {
+		c.R.Violate(rig.Violation{
+			Sig:     sigPrefix + "|tracker-call-never-returns|" + ds.Signature,
+			Detail:  "a call into the tracker never returns: every goroutine of the process is blocked for good (" + ds.Signature + "); case in flight: " + c.J.Last(),
+			Case:    caseOfJournal(c.J.Last()),
+			Witness: ds.Dump,
+		})
+		if c.Finish != nil {
+			c.Finish()
+		}
+	})
+}
+
+func caseOfJournal(l string) string {
+	if f := strings.Fields(l); len(f) > 1 && f[0] == "CASE" {
+		return f[1]
+	}
+	return ""
 }
 
 // Arg returns a batch argument or def.
